@@ -19,10 +19,20 @@ RUST = {
 _built = False
 
 
+def target_dir():
+    """Where the Rust .so files live. A scratch worktree (VERIF_REPO=/tmp/wt) without its own target/ borrows
+    /repo/target (python-only mutants); give it a target/ (cp -a /repo/target) to rebuild Rust there."""
+    t = os.path.join(REPO, "target")
+    return t if os.path.isdir(t) else "/repo/target"
+
+
 def rustbuild():
     """cargo build --offline of the six extension crates; ~0.3 s when nothing changed."""
     global _built
     if _built or os.environ.get("VF_RUST_BUILT"):
+        return
+    if not os.path.isdir(os.path.join(REPO, "target")):
+        _built = True
         return
     env = dict(os.environ, CARGO_NET_OFFLINE="true")
     p = subprocess.run(["cargo", "build", "--offline", "-q", "-p", "osutils-py", "-p", "cmd-py", "-p", "patch-py",
@@ -39,7 +49,7 @@ class _Finder(importlib.abc.MetaPathFinder):
         so = RUST.get(name)
         if so is None:
             return None
-        f = os.path.join(REPO, "target", "debug", so)
+        f = os.path.join(target_dir(), "debug", so)
         if not os.path.exists(f):
             return None
         loader = importlib.machinery.ExtensionFileLoader(name, f)
